@@ -641,3 +641,32 @@ def ft9(prog, rr):
     elif a != b:
         rr.finding(gi, gi.node, "list_t.__getitem__", "FT9: indexing converts with %s but iteration with %s: the two read paths can return different values "
                    "for the same element" % (a, b), text="sibling conversion differs")
+
+
+# --------------------------------------------------------------------------------------- ST5
+@rule("ST5", ["C09"], "no process-dependent value (salted hash(), id(), unordered set/dict-of-objects order, time, os.urandom) feeds seeds or the solve path",
+      engine="CG", floor=3)
+def st5(prog, rr):
+    funcs = set(solve_path(prog)) | {f for f in prog.funcs if f.module.name in ("vsc.model.rand_state", "vsc.impl.randobj_int")}
+    bad_names = {"hash": "str/bytes hashes are salted per process (PYTHONHASHSEED)", "id": "object addresses differ between processes"}
+    for f in sorted(funcs, key=lambda x: x.qual):
+        rs = f.module.name == "vsc.model.rand_state"
+        for n in walk_local(f.node):
+            if isinstance(n, ast.Call) and isinstance(n.func, ast.Name) and n.func.id in bad_names:
+                rr.finding(f, n, _q(f), "ST5: %s() is used on the seed/solve path: %s, so the same seed gives different values in another process"
+                           % (n.func.id, bad_names[n.func.id]))
+            if isinstance(n, ast.Call) and isinstance(n.func, ast.Attribute) and (norm(n.func) in ("os.urandom", "time.time", "time.time_ns", "uuid.uuid4")) and rs:
+                rr.finding(f, n, _q(f), "ST5: %s feeds the random state" % norm(n.func))
+        if rs:
+            rr.inst("rand_state function %s" % f.qual)
+    # seeding: RandState.__init__ seeds from the text of its argument (deterministic across processes)
+    init = prog.method("RandState", "__init__")
+    seeds = [n for n in walk_local(init.node) if isinstance(n, ast.Call) and call_name(n) == "seed"]
+    rr.inst("RandState.__init__ seed calls: %s" % [norm(s) for s in seeds])
+    if not seeds:
+        rr.finding(init, init.node, "RandState.__init__", "ST5: the private generator is never seeded from the given seed", text="no seed")
+    for s in seeds:
+        a = s.args[0] if s.args else None
+        names = names_in(a) if a is not None else set()
+        if init.params[1] not in names:
+            rr.finding(init, s, "RandState.__init__", "ST5: the generator is seeded with '%s', which does not depend on the seed argument" % (norm(a) if a is not None else ""))
